@@ -89,3 +89,76 @@ def _dump():
 
 
 atexit.register(_dump)
+
+# (d) CrossHair's "premature realisation" heuristic (a ParallelNode at the creation of every int/
+# bool/str argument that, with growing probability, replaces the symbolic value by one concrete
+# value) is switched off: only the fully symbolic branch is explored. Either branch of a
+# ParallelNode suffices for a verdict, so this loses nothing; with 15-25 range-constrained
+# arguments the heuristic otherwise wastes >90% of the iterations on precondition failures.
+from crosshair.statespace import StateSpace as _StateSpace
+
+_orig_fork_parallel = _StateSpace.fork_parallel
+
+
+def _fork_parallel(self, false_probability, desc=""):
+    if desc.startswith('premature realize'):
+        return False
+    return _orig_fork_parallel(self, false_probability, desc)
+
+
+_StateSpace.fork_parallel = _fork_parallel
+
+# (e) the code base calls the unbound `dict.__eq__(a, b)`; CrossHair models dicts built in traced
+# code as ShellMutableMap, for which the C slot raises TypeError. Route those calls to `==`.
+_orig_dict_eq = dict.__eq__
+
+
+def _dict_eq(a, b):
+    with NoTracing():
+        plain = type(a) in (dict,) or isinstance(a, dict)
+        plain = plain and isinstance(b, dict)
+    if plain:
+        return _orig_dict_eq(a, b)
+    return a == b
+
+
+_core._PATCH_REGISTRATIONS[dict.__eq__] = _dict_eq
+
+# (f) `dict(...)` called in traced code builds a ShellMutableMap even when every key is a concrete
+# string; its length bookkeeping goes wrong after copy()+pop() (len 0 with one live key, observed
+# in ChangeMeta.simulate), which yields non-reproducing counterexamples. Build a real dict whenever
+# all keys are concrete; values may stay symbolic (they are only stored).
+import collections as _collections
+import crosshair.libimpl.builtinslib as _bl
+
+_ch_dict = _core._PATCH_REGISTRATIONS.get(dict)
+_MISSING = object()
+
+
+def _concrete_keys(obj):
+    if type(obj) in (dict, _collections.OrderedDict):
+        return all(not isinstance(k, CrossHairValue) for k in obj.keys())
+    if type(obj) in (list, tuple):
+        for pair in obj:
+            if type(pair) not in (list, tuple) or len(pair) != 2 or isinstance(pair[0], CrossHairValue):
+                return False
+            try:
+                hash(pair[0])
+            except Exception:
+                return False
+        return True
+    return False
+
+
+def _dict_patch(arg=_MISSING, **kwargs):
+    with NoTracing():
+        ok = arg is _MISSING or _concrete_keys(arg)
+        if ok:
+            return dict(**kwargs) if arg is _MISSING else dict(arg, **kwargs)
+    if arg is _MISSING:
+        return _ch_dict(**kwargs)
+    return _ch_dict(arg, **kwargs)
+
+
+if _ch_dict is not None:
+    _core._PATCH_REGISTRATIONS[dict] = _dict_patch
